@@ -24,6 +24,7 @@ type Env struct {
 	callee     bool // evaluating a callee contract at a call site
 	callResult *Val
 	specDepth  int
+	typeFn     *ssa.Function
 }
 
 func (e *Engine) envFor(st *State, fr *FrameSt, old *State) *Env {
@@ -408,6 +409,9 @@ func isPlainInt(t types.Type) bool {
 }
 
 func (env *Env) fnForTypes() *ssa.Function {
+	if env.typeFn != nil {
+		return env.typeFn
+	}
 	if env.fr != nil {
 		return env.fr.fn
 	}
@@ -447,6 +451,10 @@ func (env *Env) selectField(base Val, name string) Val {
 	}
 	if base.K != kTerm {
 		limitf("field selection on non-term")
+	}
+	if h, srt, ft, ok := e.absFieldOf(base.Typ, name); ok {
+		hm := e.heapGet(env.st, h, srt)
+		return term(fmt.Sprintf("(select %s %s)", hm, base.T), ft)
 	}
 	switch t := base.Typ.Underlying().(type) {
 	case *types.Pointer:
@@ -583,6 +591,28 @@ func (env *Env) evalCall(n ECall) Val {
 		hn, hs, _, _ := e.mapHeapNames(mt)
 		h := e.heapGet(env.st, hn, hs)
 		return term(fmt.Sprintf("(and (not (= %s 0)) (select (select %s %s) %s))", m.T, h, m.T, e.asTerm(env.st, k)), tBool)
+	case "upd", "add", "remove":
+		m := env.eval(n.Args[0])
+		g, ok := m.Typ.(*GhostT)
+		if !ok {
+			limitf("%s() on non-ghost collection", id.Name)
+		}
+		k := env.coerceTo(env.eval(n.Args[1]), g.Key)
+		var v string
+		switch {
+		case id.Name == "upd" && g.Kind == "gmap":
+			v = e.asTerm(env.st, env.coerceTo(env.eval(n.Args[2]), g.Elem))
+		case id.Name == "add" && g.Kind == "set":
+			v = "true"
+		case id.Name == "remove" && g.Kind == "set":
+			v = "false"
+		default:
+			limitf("%s() does not apply to %s", id.Name, g)
+		}
+		return term(fmt.Sprintf("(store %s %s %s)", m.T, e.asTerm(env.st, k), v), m.Typ)
+	case "emptyset":
+		t := e.P.resolveType("set["+n.Args[0].String()+"]", env.pkg, env.fnForTypes())
+		return term(e.zero(t), t)
 	case "typeid":
 		v := env.eval(n.Args[0])
 		return term(fmt.Sprintf("(ityp %s)", v.T), tInt)
